@@ -97,6 +97,14 @@ impl World {
                         let d = format!("leader {n} sent a snapshot at {idx} beyond its commit index {}", node.obs.commit);
                         return Err(self.violation("C13", "C13.append_well_formed", n, d, "snapshot_beyond_commit".into()));
                     }
+                    // the snapshot's state must be the state of the committed prefix (C01 c)
+                    let st = crate::disk::AppState::from_snapshot(m.get_snapshot());
+                    if let Some(h) = self.ghost.h_at(idx) {
+                        if h != st.hash {
+                            let d = format!("leader {n} sent a snapshot at {idx} whose state differs from the committed log prefix");
+                            return Err(self.violation("C01", "C01.commit_agreement", n, d, "snapshot_state_diverged".into()));
+                        }
+                    }
                     if let Some(t) = self.ghost.cl_term(idx) {
                         if t != m.get_snapshot().get_metadata().term {
                             let d = format!("leader {n} sent a snapshot ({idx}, term {}) but the committed entry there has term {t}", m.get_snapshot().get_metadata().term);
